@@ -19,7 +19,10 @@ EXPLANATION = (
   "compiler rejects (R4); the stub comments out every input line and embeds user text only "
   "through repr (R5); the hint that makes make_formula_body undo the indentation inside multi-line "
   "literals is computed from each literal's source extent, for the same node types the un-indent "
-  "pass handles, never from its runtime value (R6). Not decided: semantic equivalence of valid formulas beyond these "
+  "pass handles, never from its runtime value (R6); the astroid inference tips registered while a "
+  "formula is re-parsed are always unregistered again: either the context manager restores the "
+  "registry in a finally, or no parse error can escape its with-block (the handler sits inside) "
+  "(R7). Not decided: semantic equivalence of valid formulas beyond these "
   "translation steps.")
 
 CB = "codebuilder._do_make_formula_body"
@@ -31,7 +34,7 @@ def check(run, repo, tier):
   # helper keep their place
   import os
   _HERE = os.path.dirname(os.path.abspath(__file__))
-  decide(run, repo, [r1_fenced, r2_line_model, r3_translation, r4_compile_acceptor, r5_stub, r6_multiline_hint],
+  decide(run, repo, [r1_fenced, r2_line_model, r3_translation, r4_compile_acceptor, r5_stub, r6_multiline_hint, r7_inference_scope],
          anchors_of(os.path.join(_HERE, "c19.py"), os.path.join(_HERE, "_h_E.py"), os.path.join(_HERE, "../events.py")))
 
 
@@ -791,6 +794,64 @@ def r6_multiline_hint(run, w):
            fi=fn.fi, node=st.stmt)
 
 
+def r7_inference_scope(run, w):
+  R7 = run.rule("C19-R7", "process-wide astroid transforms registered around a parse are removed "
+                "again even when the formula does not parse", floor=1)
+  mod = w.repo.module("codebuilder")
+  # the context managers, by role: generator functions that register and later unregister
+  # transforms on the astroid manager
+  managers = {}
+  for fi in mod.functions.values():
+    names = {(dotted(c.func) or "").split(".")[-1] for c in calls_in(fi.node)}
+    if "register_transform" in names and "unregister_transform" in names and \
+        any(isinstance(x, (ast.Yield, ast.YieldFrom)) for x in ast.walk(fi.node)):
+      safe = False
+      for t in ast.walk(fi.node):
+        if isinstance(t, ast.Try) and t.finalbody and \
+            any(isinstance(x, (ast.Yield, ast.YieldFrom)) for b in t.body for x in ast.walk(b)):
+          safe = any((dotted(c.func) or "").endswith("unregister_transform")
+                     for c in calls_in(t.finalbody))
+      managers[fi.name] = safe
+  if not managers:
+    raise AnalysisError("codebuilder: no context manager registering astroid transforms found")
+  n_with = 0
+  for fi in w.repo.all_functions():
+    if fi.module is not mod:
+      continue
+    fn = w.fn_of(fi)
+    withs = [s_ for s_ in ast.walk(fn.node) if isinstance(s_, ast.With) and
+             any(isinstance(it.context_expr, ast.Call) and
+                 (fn.name(it.context_expr) or "").split(".")[-1] in managers
+                 for it in s_.items)]
+    if not withs:
+      continue
+    sites = _parse_sites(w, fn)
+    for wt in withs:
+      inside = {id(x) for b in wt.body for x in ast.walk(b)}
+      cm = [(fn.name(it.context_expr) or "").split(".")[-1] for it in wt.items
+            if isinstance(it.context_expr, ast.Call)]
+      safe_cm = all(managers.get(nm_, True) for nm_ in cm)
+      n_with += 1
+      ok = True
+      wit = None
+      if not safe_cm:
+        for kind, node, astroid_too in sites:
+          if id(node) not in inside:
+            continue
+          trys = _enclosing_trys(fn, node)
+          for exc in ["SyntaxError"] + (["AstroidSyntaxError"] if astroid_too else []):
+            h = _handler_for(trys, exc)
+            if h is None or id(h) not in inside:
+              ok = False
+              wit = "a %s raised by `%s` leaves the with-block before the transforms are " \
+                  "unregistered" % (exc, short(node, 50))
+      run.ob(R7, fn.qualname, "with %s(...): <parse under a handler inside the block>" % cm[0],
+             "a formula that does not parse cannot leave the inference tips registered for every "
+             "later parse in the process", ok, witness=wit, fi=fn.fi, node=wt)
+  if not n_with:
+    raise AnalysisError("codebuilder: no `with <inference context manager>` statement found")
+
+
 C = "sandbox/grist/codebuilder.py"
 VARIANTS = [
   ("no-newline-normalisation", C, "  formula_builder_text = _normalize_newlines(formula_builder_text)\n", "", "C19-R2"),
@@ -835,5 +896,20 @@ VARIANTS = [
   ("multiline-hint-misses-fstrings", C, """    if isinstance(node, (ast.Constant, ast.JoinedStr)) and "\\n" in atok.get_text(node):
       have_multiline_strings = True""", """    if isinstance(node, ast.Constant) and "\\n" in atok.get_text(node):
       have_multiline_strings = True""", "C19-R6"),
+  ("inference-scope-leaks-on-syntax-error", C, """  with use_inferences(InferRecAssignment, InferRecAttrAssignment):
+    try:
+      astroid.parse(final_formula.get_text())
+      _check_compiles(final_formula)
+    except (astroid.AstroidSyntaxError, SyntaxError) as e:
+      error = getattr(e, "error", e)  # extract SyntaxError from AstroidSyntaxError
+      return textbuilder.Text(_create_syntax_error_code(final_formula, formula, error))
+""", """  try:
+    with use_inferences(InferRecAssignment, InferRecAttrAssignment):
+      astroid.parse(final_formula.get_text())
+    _check_compiles(final_formula)
+  except (astroid.AstroidSyntaxError, SyntaxError) as e:
+    error = getattr(e, "error", e)  # extract SyntaxError from AstroidSyntaxError
+    return textbuilder.Text(_create_syntax_error_code(final_formula, formula, error))
+""", "C19-R7"),
   ("stub-raw-message", C, """  return "%s\\nraise %s(%r, ('usercode', %r, %r, %r))" % (""", """  return "%s\\nraise %s('%s', ('usercode', %r, %r, %r))" % (""", "C19-R5"),
 ]
